@@ -164,3 +164,22 @@ Check recovery_from_a_crashed_batch_is_idempotent :
   let img' := snd (Recovery.open_image c img) in
   ScanQuiescentProofs.reopen c k img' = Recovery.open_image c img' /\ snd (Recovery.open_image c img') = img'.
 Print Assumptions recovery_from_a_crashed_batch_is_idempotent.
+(* non-vacuity: the 20-block file of C03's example a_crashed_batch (free block, a two-block record
+   named by an ACTIVE journal record, a one-block record): opened, and the result opened twice more *)
+Example a_crashed_batch_reopened :
+  let r1 := Codec.mkrec [107; 49] (repeat 7 5000) 11 0 in
+  let r2 := Codec.mkrec [107; 50] [1; 2; 3] 12 99 in
+  let m := MetaJournal.mkmeta 3 2 5033 (20 * 4096) 4096 0 1 2 4 (repeat 0 48) in
+  let z := repeat 0 Codec.BLOCK in
+  let j := MetaJournal.encode_journal 5 Constants.JOURNAL_ACTIVE [(17, 2)] in
+  let jb := Recovery.chunk_blocks (j ++ Bytes.zeros (3 * Codec.BLOCK - length j)) 3 in
+  let img := [MetaJournal.meta_block m] ++ jb ++ [z; z; z; MetaJournal.meta_block m; z; z; z; z; z; z; z; z]
+             ++ ScanQuiescentProofs.ilayout 3 16 ([ScanQuiescentProofs.IFree] ++ ScanQuiescentProofs.IRec r1 :: [ScanQuiescentProofs.IRec r2]) in
+  let c := Recovery.mkcfg false false None 168 in
+  let img' := snd (Recovery.open_image c img) in
+  img' <> img /\
+  ScanQuiescentProofs.reopen c 2 img' = Recovery.open_image c img' /\ snd (Recovery.open_image c img') = img' /\
+  MetaJournal.decode_journal (Recovery.slot_bytes img' 0) (Recovery.slot_bytes img' 1) 20 = Some (6, 1, []).
+Proof.
+  vm_compute. split; [discriminate|]. repeat split; reflexivity.
+Qed.
